@@ -337,6 +337,7 @@ def write_evidence(ctx, nviol, known_printed):
     # discharged nor counted as obligations of the claim (the finding itself is the statement about them)
     kf = [o for o in ctx.obligations if not o['ok'] and o.get('known_key') in known_printed]
     counted = [o for o in ctx.obligations if o not in kf]
+    ctx.n_known_finding_obligations = len(kf)
     nob = len(counted)
     ndis = sum(1 for o in counted if o['ok'])
     kinds = {}
